@@ -7,6 +7,7 @@ import (
 	"bytes"
 	"encoding/json"
 	"io"
+	"os"
 	"reflect"
 	"strings"
 	"testing"
@@ -17,19 +18,20 @@ import (
 )
 
 type CaseC13 struct {
-	Kind    string                   `json:"kind"` // xml | seq | json
-	API     string                   `json:"api"`  // reader | raw | handler | handler-raw | wrapper
-	XDocs   []*XElem                 `json:"xdocs,omitempty"`
-	JDocs   []map[string]interface{} `json:"jdocs,omitempty"`
-	JIndent []bool                   `json:"jindent,omitempty"`
-	Lead    []string                 `json:"lead"` // whitespace before each document
-	Prolog  []string                 `json:"prolog,omitempty"` // XML kinds: declaration / comment / DOCTYPE before a document
-	Trail   string                   `json:"trail"`
-	Sched   []int                    `json:"sched"` // >0: deliver up to n bytes; 0: (0, nil)
-	Cycle   bool                     `json:"cycle,omitempty"` // the schedule repeats instead of falling back to one byte per read
-	EOFWith bool                     `json:"eof_with"`
-	Bufio   bool                     `json:"bufio"`
-	Stop    int                      `json:"stop"` // handlers: return false at the Stop-th document (0: never)
+	Kind      string                   `json:"kind"` // xml | seq | json
+	API       string                   `json:"api"`  // reader | raw | handler | handler-raw | wrapper
+	XDocs     []*XElem                 `json:"xdocs,omitempty"`
+	JDocs     []map[string]interface{} `json:"jdocs,omitempty"`
+	JIndent   []bool                   `json:"jindent,omitempty"`
+	Lead      []string                 `json:"lead"`             // whitespace before each document
+	Prolog    []string                 `json:"prolog,omitempty"` // XML kinds: declaration / comment / DOCTYPE before a document
+	Trail     string                   `json:"trail"`
+	Sched     []int                    `json:"sched"`           // >0: deliver up to n bytes; 0: (0, nil)
+	Cycle     bool                     `json:"cycle,omitempty"` // the schedule repeats instead of falling back to one byte per read
+	EOFWith   bool                     `json:"eof_with"`
+	Bufio     bool                     `json:"bufio"`
+	Stop      int                      `json:"stop"`                 // handlers: return false at the Stop-th document (0: never)
+	UseNumber bool                     `json:"use_number,omitempty"` // JSON kinds: mxj.JsonUseNumber is on for the direct and the stream decoding alike
 }
 
 func init() { register("C13", checkC13) }
@@ -132,6 +134,8 @@ func genC13(t *rapid.T) CaseC13 {
 	}
 	if c.Kind == "seq" {
 		apis = []string{"reader", "raw"}
+	} else {
+		apis = append(apis, "file", "file-raw") // the file readers inherit the property (no delivery schedule: the os decides)
 	}
 	c.API = rapid.SampledFrom(apis).Draw(t, "api")
 	nd := rapid.IntRange(1, 5).Draw(t, "ndocs")
@@ -171,6 +175,9 @@ func genC13(t *rapid.T) CaseC13 {
 		if !pos {
 			c.Sched = append(c.Sched, 1)
 		}
+	}
+	if c.Kind == "json" {
+		c.UseNumber = rapid.IntRange(0, 3).Draw(t, "usenumber") == 0
 	}
 	c.EOFWith = rapid.Bool().Draw(t, "eofWith")
 	c.Bufio = rapid.Bool().Draw(t, "bufio")
@@ -239,6 +246,12 @@ func checkC13(c CaseC13, info *Info) *Failure {
 				info.Skip = "generated JSON does not decode to itself"
 				return nil
 			}
+			if c.UseNumber {
+				mxj.JsonUseNumber = true
+				if m, err = mxj.NewMapJson(b); err != nil {
+					return failf("direct-decode-error", "NewMapJson(%q) with JsonUseNumber: %v", b, err)
+				}
+			}
 			want = append(want, m)
 		case "seq":
 			if strings.TrimSpace(prolog) != "" {
@@ -290,6 +303,9 @@ func checkC13(c CaseC13, info *Info) *Failure {
 		return "kind " + c.Kind + " api " + c.API + " stream " + strconvQuote(data) + " sched " + canon(c.Sched) + " eofWith=" + boolStr(c.EOFWith) + " bufio=" + boolStr(c.Bufio)
 	}
 
+	if strings.HasPrefix(c.API, "file") {
+		return checkC13file(c, data, docs, want, nd, desc, info)
+	}
 	var got []map[string]interface{}
 	var gotNoRoot []bool
 	var raws [][]byte
@@ -436,6 +452,7 @@ func checkC13(c CaseC13, info *Info) *Failure {
 	info.ClassIf(sr.sawSpan, "a read spanned a document boundary")
 	info.ClassIf(sr.sawEOFData, "final data delivered together with io.EOF")
 	info.ClassIf(c.Stop > 0 && c.Stop < nd, "handler stopped early")
+	info.ClassIf(c.UseNumber, "JsonUseNumber on")
 	info.NonTrivial(nd >= 2 && (sr.sawEmpty || sr.sawSpan || sr.sawEOFData))
 	return nil
 }
@@ -461,4 +478,78 @@ func hasPositive(s []int) bool {
 		}
 	}
 	return false
+}
+
+// checkC13file: the file readers return the same Maps in the same order as decoding each document directly
+// (and, for the Raw forms, raw values that contain each document's text).
+func checkC13file(c CaseC13, data []byte, docs [][]byte, want []map[string]interface{}, nd int, desc func() string, info *Info) *Failure {
+	f, err := os.CreateTemp("", "verif-c13-*")
+	if err != nil {
+		info.Skip = "no temp file"
+		return nil
+	}
+	name := f.Name()
+	defer os.Remove(name)
+	_, werr := f.Write(data)
+	f.Close()
+	if werr != nil {
+		info.Skip = "no temp file"
+		return nil
+	}
+	var got []map[string]interface{}
+	var raws [][]byte
+	var rerr error
+	switch {
+	case c.Kind == "json" && c.API == "file":
+		var ms mxj.Maps
+		ms, rerr = mxj.NewMapsFromJsonFile(name)
+		for _, m := range ms {
+			got = append(got, m)
+		}
+	case c.Kind == "json":
+		var ms []mxj.MapRaw
+		ms, rerr = mxj.NewMapsFromJsonFileRaw(name)
+		for _, m := range ms {
+			got = append(got, m.M)
+			raws = append(raws, m.R)
+		}
+	case c.API == "file":
+		var ms mxj.Maps
+		ms, rerr = mxj.NewMapsFromXmlFile(name)
+		for _, m := range ms {
+			got = append(got, m)
+		}
+	default:
+		var ms []mxj.MapRaw
+		ms, rerr = mxj.NewMapsFromXmlFileRaw(name)
+		for _, m := range ms {
+			got = append(got, m.M)
+			raws = append(raws, m.R)
+		}
+	}
+	if rerr != nil {
+		return failf("stream-error", "%s: file reader returned %v after %d of %d documents", desc(), rerr, len(got), nd)
+	}
+	if len(got) != nd {
+		return failf("document-count", "%s: file reader returned %d documents, want %d", desc(), len(got), nd)
+	}
+	for i := range got {
+		if !reflect.DeepEqual(got[i], want[i]) {
+			return failf("document-mismatch", "%s: document %d: got %#v want %#v", desc(), i, got[i], want[i])
+		}
+	}
+	for i := range raws {
+		ok := bytes.Contains(raws[i], docs[i])
+		if c.Kind == "json" {
+			ok = bytes.Equal(stripWS(raws[i]), stripWS(docs[i]))
+		}
+		if !ok {
+			return failf("raw-mismatch", "%s: raw %d %q does not carry its document %q", desc(), i, raws[i], docs[i])
+		}
+	}
+	info.Class("kind:" + c.Kind)
+	info.Class("api:" + c.API)
+	info.ClassIf(c.UseNumber, "JsonUseNumber on")
+	info.NonTrivial(nd >= 2)
+	return nil
 }
